@@ -327,6 +327,13 @@ fn backend<B: Backend>(opts: &Opts, rep: &mut Report) {
                 (format!("{h}{b}\0"), "non-alphabet"),
                 (format!("{h}{b}~"), "non-alphabet"),
                 (format!("{h}{b}%3D"), "non-alphabet"),
+                // parts of the header repeated ("k4k4.local.", "k4.local..local.", "k4.k4.local.")
+                (format!("{}{h}{b}", &h[..2]), "header"),
+                (format!("{}{}{h}{b}", &h[..2], &h[..2]), "header"),
+                (format!("{}{h}{b}", &h[..3]), "header"),
+                (format!("{}{}{b}", h, &h[2..]), "header"),
+                (format!("{}{}{}{b}", h, &h[2..], &h[2..]), "header"),
+                (format!("{}{}{b}", h, &h[3..]), "header"),
                 // the header with the payload-encoding suffix dropped / added / doubled
                 (format!("{}{b}", h.replacen("x.", ".", 1)), "header"),
                 (format!("{}{b}", h.replacen('.', "x.", 1)), "header"),
